@@ -4,7 +4,13 @@
      <input> TAB <impl output>    -> prints <model output> TAB <check 0/1> TAB <agree 0/1>
    Integers are converted between OCaml int and the extracted binary Z; nothing
    else is interpreted here. *)
-open Model
+(* no [open Model]: extracted names (incr, fst, length, ...) must not shadow Stdlib *)
+type positive = Model.positive = XI of positive | XO of positive | XH
+type z = Model.z = Z0 | Zpos of positive | Zneg of positive
+type val0 = Model.val0 = I of z | L of val0 list
+let run = Model.run
+let check = Model.check
+let agree = Model.agree
 
 let rec pos_of_int n =
   if n = 1 then XH
